@@ -276,7 +276,7 @@ class LiveWalk:
                               f'{rep.id}: $Time$={a.time} but tfdt={tfdt} (delta {tfdt - a.time})', rp)
             if total != a.duration:
                 is_last = (len(sf.segments) - 1) in self._candidates
-                if is_last and drift is not None and Fraction(a.duration - total) == drift:
+                if is_last and drift is not None and 0 <= drift - (a.duration - total) < 1:
                     mech = 'timeline-last-segment-of-loop-advertises-duration-plus-drift'
                 else:
                     mech = 'time-addressed-segment-wrong-duration'
@@ -314,7 +314,18 @@ class LiveWalk:
                 res.count('c02.ambiguous_payload')
             if not aligned:
                 loops = int(delta // R)
-                res.violation('loop-origin-misaligned-with-reference-duration',
+                mech = 'loop-origin-misaligned-with-reference-duration'
+                ref_ticks = R * sf.timescale
+                if ref_ticks.denominator != 1:
+                    # the reference duration is not a whole number of this track's ticks; the server
+                    # advances the loop origin by floor(reference ticks) per loop
+                    fl = ref_ticks.numerator // ref_ticks.denominator
+                    for kk in self._candidates:
+                        d_ticks = tfdt - (self.index.stored_decode_time(key, kk) - first)
+                        if d_ticks % fl == 0:       # an exact multiple: chance 1/fl (~1e-6) otherwise
+                            mech = 'loop-origin-advances-by-floored-reference-duration'
+                            break
+                res.violation(mech,
                               f'{rep.id}: served tfdt {tfdt} - stored position {pos_k - first} = '
                               f'{float(delta)} s is {float(min(m, R - m))} s away from a multiple of the '
                               f'reference duration {float(R)} s after {loops} loops', rp)
